@@ -1,8 +1,46 @@
-import Driver.Util
+import Driver.C01
+import Driver.C02
+import Driver.C03
+import Driver.C04
+import Driver.C05
+import Driver.C06
+import Driver.C07
+import Driver.C08
+import Driver.C09
+import Driver.C10
+import Driver.C11
+import Driver.C12
+import Driver.C13
+import Driver.C14
+import Driver.C15
+import Driver.C16
 import Driver.C17
+import Driver.C18
+import Driver.C19
+import Driver.C20
+import Driver.Util
 
 def protos : List (String × Driver.Proto) :=
-  [("C17", Driver.C17.proto)]
+  [("C01", Driver.C01.proto),
+   ("C02", Driver.C02.proto),
+   ("C03", Driver.C03.proto),
+   ("C04", Driver.C04.proto),
+   ("C05", Driver.C05.proto),
+   ("C06", Driver.C06.proto),
+   ("C07", Driver.C07.proto),
+   ("C08", Driver.C08.proto),
+   ("C09", Driver.C09.proto),
+   ("C10", Driver.C10.proto),
+   ("C11", Driver.C11.proto),
+   ("C12", Driver.C12.proto),
+   ("C13", Driver.C13.proto),
+   ("C14", Driver.C14.proto),
+   ("C15", Driver.C15.proto),
+   ("C16", Driver.C16.proto),
+   ("C17", Driver.C17.proto),
+   ("C18", Driver.C18.proto),
+   ("C19", Driver.C19.proto),
+   ("C20", Driver.C20.proto)]
 
 def main (args : List String) : IO UInt32 := do
   let inp ← IO.getStdin
